@@ -103,7 +103,10 @@ def check_primitives(report: Report, repo: Repo) -> None:
                 for e in saves:
                     for g_, leaf in TM.leaves(e["args"][0]):
                         seen_dt.append((xn, getattr(leaf, "dtype", None), getattr(leaf, "const", None)))
-            ok = bool(seen_dt) and all(dt == ("same", xn) and TM.expr_equal(c, factor) is True for xn, dt, c in seen_dt)
+            if any(c is None for _xn, _dt, c in seen_dt):
+                ok = None  # the saved value is not a tracked constant: its relation to the factor is not decided here
+            else:
+                ok = bool(seen_dt) and all(dt == ("same", xn) and TM.expr_equal(c, factor) is True for xn, dt, c in seen_dt)
             report.add("R2-siblings", f"{SCALE}::_ScaledGrad.forward::saved-dtype-history", ok, f"two calls with the same backward factor ({fmt(factor)}) and tensors of different dtypes: each call must save the factor in the dtype of *its own* tensor, whatever was called before", str(seen_dt)[:300], "[(X1, dtype of X1), (X2, dtype of X2)]")
     except Unsupported as e:
         report.add("R2-siblings", f"{SCALE}::_ScaledGrad.forward::saved-dtype-history", None, f"outside fragment: {e}")
@@ -129,6 +132,9 @@ def check_primitives(report: Report, repo: Repo) -> None:
         res = it.call_function(bwd, [ctx, g], {})
         ok = isinstance(res, tuple) and len(res) == 3 and res[1] is None and res[2] is None and TM.term_equal(TM.term_of(res[0]), T("mul", (T("param", ("saved",)), g.term))) is True
         report.add("R1-primitives", cons, ok, "backward must return (saved * grad_Y, None, None)", fmt(res), "(saved*grad_Y, None, None)")
+        if ok:
+            cut = getattr(res[0], "nograd", False)
+            report.add("R1-primitives", cons + "::grad-mode", not cut, "the gradient handed back is not produced inside a no_grad / inference_mode region (under create_graph=True the scaled gradient stays differentiable, as PyTorch's is)", "produced under no_grad" if cut else "caller's grad mode", "caller's grad mode", nontrivial=False)
     except Unsupported as e:
         report.add("R1-primitives", cons, None, f"outside fragment: {e}")
 
